@@ -1,0 +1,9 @@
+//go:build !verif
+
+// Package verifpoint marks the boundaries between critical sections that the
+// verification harness (build tag "verif") may use to interleave goroutines
+// deterministically. Without the tag Hit is an empty function.
+package verifpoint
+
+// Hit does nothing in normal builds.
+func Hit(string) {}
